@@ -552,6 +552,9 @@ def run(ctx, rep):
     rule_keyorder(ctx, rep)
     rule_idorigin(ctx, rep)
     rule_doctext(ctx, rep)
+    # one document, one entry: the key of the project's file table tells distinct paths apart and is ordered the same way in every history
+    from rules.c06 import rule_types
+    rule_types(ctx, rep, rid="R-C11-fileid")
     from rules import c06_globals
     c06_globals.run(ctx, rep, rid="R-C11-globals")
     from rules.c05 import rule_units
